@@ -211,6 +211,7 @@ func checkC04(c C04Case, r *Rec) *Violation {
 		// same Ctx (as after VariableFetcher.Set), it is not a fresh Ctx every time
 		seqF := NewFetcher(u, cc, log)
 		seqF.Raw = c.Raw
+		seqF.DNEAsValue = hash64(src)%4 == 1 // unavailable said by a DNE value instead of Cached=false
 		seqCtx := seqF.Ctx()
 		try := func(av map[string]bool) Outcome {
 			seqF.Avail = av
